@@ -144,15 +144,17 @@ func checkCmd(args []string) int {
 			// components that are references to other components and date / date-time
 			// components (corpus/json/j05): the encoding side is under contract (C07);
 			// the decoding of such members is not (DESIGN 0.7, limits)
-			var keep []vc.CorpusEntry
+			var keep, codecOnly []vc.CorpusEntry
 			for _, ce := range entries {
-				if strings.Contains(ce.Name, "-aliases") {
-					cr.Note("%s: checked for C07 only (decoding of alias / date-time component members is not under contract)", ce.Name)
+				if strings.Contains(ce.Name, "-aliases") || strings.Contains(ce.Name, "-timelayout") {
+					cr.Note("%s: member clauses checked for C07 only (decoding of alias / date-time component members is not under contract); the JSON methods of its date-time components are checked against the layout contract", ce.Name)
+					codecOnly = append(codecOnly, ce)
 					continue
 				}
 				keep = append(keep, ce)
 			}
 			entries = keep
+			cr.CheckTimeCodecEntries(codecOnly)
 		}
 		cr.CheckJSON(entries)
 		return cr.Finish("proof", checkerCmd, commonTrusted, "one obligation per (codec function, return site, clause) and per call-site precondition of the emitted MarshalJSON / marshalJSONInnerBody / UnmarshalJSON / unmarshalJSONInnerBody of every schema-derived type of every corpus package; all values / all documents")
@@ -186,6 +188,13 @@ func checkCmd(args []string) int {
 		if *tier != "quick" {
 			entries = vc.FixtureCorpus(*repo)
 			entries = append(entries, vc.ResponseCorpus(corpusDir)...)
+		}
+		for _, ce := range vc.JSONCorpus(*verif) {
+			// date-time components with a declared layout: the codec of the component
+			// is held to the layout its inline copy uses (json-time-component)
+			if strings.Contains(ce.Name, "-timelayout") {
+				entries = append(entries, ce)
+			}
 		}
 		cr.CheckTwins(entries, corpusDir)
 		return cr.Finish("proof", checkerCmd, commonTrusted, "per pair ($ref spec, mechanically inlined twin): both generate, identical dereferenced contract instance, and every Layer E obligation (routing, security, params, Write, client) has the same verdict in both forms")
